@@ -338,3 +338,49 @@ mod test {
     test_match("($P) => $F($P)", "(x) => bar(x)");
   }
 }
+
+/// Verification hooks: thin wrappers over crate-private kernels (cargo feature `verif-hooks`).
+#[cfg(feature = "verif-hooks")]
+#[doc(hidden)]
+pub mod verif_hooks {
+  use super::*;
+  use crate::matcher::PatternNode;
+
+  fn code(m: MatchOneNode) -> u8 {
+    match m {
+      MatchOneNode::MatchedBoth => 0,
+      MatchOneNode::SkipBoth => 1,
+      MatchOneNode::SkipGoal => 2,
+      MatchOneNode::SkipCandidate => 3,
+      MatchOneNode::NoMatch => 4,
+    }
+  }
+  /// 0 MatchedBoth, 1 SkipBoth, 2 SkipGoal, 3 SkipCandidate, 4 NoMatch
+  pub fn match_terminal<D: Doc>(
+    s: &MatchStrictness,
+    is_named: bool,
+    text: &str,
+    goal_kind: u16,
+    candidate: &Node<D>,
+  ) -> u8 {
+    code(s.match_terminal(is_named, text, goal_kind, candidate))
+  }
+  pub fn should_skip_trailing<D: Doc>(s: &MatchStrictness, candidate: &Node<D>) -> bool {
+    s.should_skip_trailing(candidate)
+  }
+  /// returns (all remaining goals skippable, number of goals consumed)
+  pub fn should_skip_goal(s: &MatchStrictness, goals: &[PatternNode]) -> (bool, usize) {
+    let mut it = goals.iter().peekable();
+    let ok = s.should_skip_goal(&mut it);
+    (ok, goals.len() - it.count())
+  }
+  /// `match_node_impl` with the real `Cow<MetaVarEnv>` aggregator
+  pub fn match_node_impl_env<'t, D: Doc>(
+    goal: &PatternNode,
+    candidate: &Node<'t, D>,
+    env: &mut Cow<MetaVarEnv<'t, D>>,
+    s: &MatchStrictness,
+  ) -> u8 {
+    code(match_node_impl(goal, candidate, env, s))
+  }
+}
